@@ -58,7 +58,11 @@ type Report3 struct {
 	NaN            int
 	Tris           [][3]int // welded vertex ids per (finite) triangle
 	Src            []int    // index into the input of each entry of Tris
-	W              *Welder3
+	// RepeatedExact counts triangles with two bit-identical vertices (Repeated counts identity after welding,
+	// which also flags legitimate micro-triangles of a surface passing within the weld tolerance of a corner)
+	RepeatedExact    int
+	RepeatedExactTri sdf.Triangle3
+	W                *Welder3
 }
 
 func finite3(t *sdf.Triangle3) bool {
@@ -87,6 +91,12 @@ func Check3(ts []*sdf.Triangle3, tol float64) *Report3 {
 				r.RepeatedTri = *t
 			}
 			r.Repeated++
+		}
+		if t[0] == t[1] || t[1] == t[2] || t[0] == t[2] {
+			if r.RepeatedExact == 0 {
+				r.RepeatedExactTri = *t
+			}
+			r.RepeatedExact++
 		}
 		for i := 0; i < 3; i++ {
 			a, b := id[i], id[(i+1)%3]
